@@ -144,34 +144,37 @@ structure RepMon where
   bad : List String := []
 deriving Repr, Inhabited
 
+/-- phase 1 of `repStep`: an obligation that is pending when event `e` arrives (`spin` is the watchdog's
+    marker, not an event of the code, and is handled before) -/
+def repDue (m0 : RepMon) (e : Ev) : RepMon :=
+  match m0.pend with
+  | .none => m0
+  | .cbFor svc av due =>
+    if e.time < due then
+      (match e with
+       | .call _ .unsub => { m0 with pend := .none }   -- the renewal is cancelled before its reply
+       | .snap .. => m0
+       | _ => { m0 with pend := .none, bad := flagged m0.bad false "report:event-before-reply" })
+    else
+      (match e with
+       | .cb _ svc' 0 av' => { m0 with pend := .none, avail := av, bad := flagged m0.bad (svc' == svc && av' == av) "report:wrong-callback" }
+       | _ => { m0 with pend := .none, bad := flagged m0.bad false "report:failed-renewal-not-reported" })
+  | .fallbackFor svc due =>
+    if e.time < due then
+      (match e with
+       | .call _ .unsub => { m0 with pend := .none }
+       | .snap .. => m0
+       | _ => { m0 with pend := .none, bad := flagged m0.bad false "report:event-before-reply" })
+    else
+      (match e with
+       | .req r => { m0 with pend := .none, bad := flagged m0.bad (r.kind == Kind.sub && r.svc == svc) "report:no-fallback-subscribe" }
+       | _ => { m0 with pend := .none, bad := flagged m0.bad false "report:no-fallback-subscribe" })
+
 def repStep (m0 : RepMon) (e : Ev) : RepMon :=
-  -- phase 1: an obligation that is due
-  let m : RepMon :=
-    match m0.pend with
-    | .none => m0
-    | .cbFor svc av due =>
-      if e.time < due then
-        (match e with
-         | .call _ .unsub => { m0 with pend := .none }   -- the renewal is cancelled before its reply
-         | .snap .. => m0
-         | _ => { m0 with pend := .none, bad := flagged m0.bad false "report:event-before-reply" })
-      else
-        (match e with
-         | .cb _ svc' 0 av' => { m0 with pend := .none, avail := av, bad := flagged m0.bad (svc' == svc && av' == av) "report:wrong-callback" }
-         | _ => { m0 with pend := .none, bad := flagged m0.bad false "report:failed-renewal-not-reported" })
-    | .fallbackFor svc due =>
-      if e.time < due then
-        (match e with
-         | .call _ .unsub => { m0 with pend := .none }
-         | .snap .. => m0
-         | _ => { m0 with pend := .none, bad := flagged m0.bad false "report:event-before-reply" })
-      else
-        (match e with
-         | .req r => { m0 with pend := .none, bad := flagged m0.bad (r.kind == Kind.sub && r.svc == svc) "report:no-fallback-subscribe" }
-         | _ => { m0 with pend := .none, bad := flagged m0.bad false "report:no-fallback-subscribe" })
-  -- phase 2: the event itself
   match e with
+  | .spin _ => m0
   | .req r =>
+    let m := repDue m0 e
     if m.inCall then m
     else
       (match r.kind with
@@ -182,14 +185,14 @@ def repStep (m0 : RepMon) (e : Ev) : RepMon :=
                  else { m with pend := .cbFor r.svc (m.avail && r.reac != .unreach) (r.t + r.lat) }
        | .unsub => m)
   | .cb _ _ nv _ =>
+    let m := repDue m0 e
     -- a callback with an empty change list is legitimate only as the report of a failed renewal
     (match m0.pend with
      | .cbFor .. => m
      | _ => { m with bad := flagged m.bad (nv != 0) "report:spurious-empty-callback" })
-  | .call .. => { m with inCall := true }
-  | .ret .. => { m with inCall := false }
-  | .snap _ _ _ _ av => { m with bad := flagged m.bad (av == m.avail) "report:available-flag" }
-  | .spin _ => m
+  | .call .. => { repDue m0 e with inCall := true }
+  | .ret .. => { repDue m0 e with inCall := false }
+  | .snap _ _ _ _ av => let m := repDue m0 e; { m with bad := flagged m.bad (av == m.avail) "report:available-flag" }
 
 def repMon (tr : List Ev) : RepMon := tr.foldl repStep {}
 
